@@ -44,6 +44,18 @@ CLAIMED = {
                  "Does not decide that a row equals the true solution to tolerance (scipy's integrators).",
         "note": _TB,
     },
+    "C01": {
+        "technique": "static analysis: effect tables of the five sibling builders per transition type with canonical "
+                     "values over MAG/RATE atoms; same-value opposite-sign pairing; accumulator summation as a polynomial "
+                     "identity; role sequences of symbol/value lists; shape inference of registered evaluators",
+        "level": "Decides term by term, for all models at once, that each builder applies B:{+dest} D:{-orig} "
+                 "T:{-orig,+dest} with magnitude*rate (ODE) / magnitude (state-change matrix) in the event's own column, "
+                 "that the rate vector uses the same enumeration, that all accumulators are summed, that symbols and "
+                 "values share the order (states,t,params) with values placed by name, that derived parameters are "
+                 "substituted for all entries, and that matrix output is not flattened. Together: ODE = V*a + explicit "
+                 "terms symbolically. Does not decide sympy parsing or compiled-code numerics.",
+        "note": _TB,
+    },
 }
 
 NOT_APPLICABLE = {}
